@@ -17,7 +17,7 @@ SRC_PROCS = [fl(n, "src.c") for n in ("process_ps", "process_fd", "process_tmr",
 
 
 def core_fp(mem_dtors=(), on_evt=(), on_start=(), on_stop=(), on_eval=(), container_dtors=("mem_dtor",),
-            comps=(), iter_cbs=(), process=(), extra=()):
+            comps=(), iter_cbs=(), process=(), extra=(), map_iter=()):
     rules = list(extra)
     if mem_dtors:
         rules.append((r"header\.dtor$", list(mem_dtors)))
@@ -33,6 +33,8 @@ def core_fp(mem_dtors=(), on_evt=(), on_start=(), on_stop=(), on_eval=(), contai
         rules.append((r"hook\.on_eval$", list(on_eval)))
     if comps:
         rules.append((r"\.comp$", list(comps)))
+    if map_iter:
+        rules.append((r"^m_map_iterate::fn$", list(map_iter)))
     if iter_cbs:
         rules.append((r"_iterate::fn$", list(iter_cbs)))
     if process:
